@@ -5,6 +5,7 @@ use std::time::{Duration, Instant};
 
 mod analyze;
 mod corpus;
+mod expect;
 mod iter;
 mod parse;
 mod quote;
@@ -36,6 +37,7 @@ fn family(name: &str) -> Option<Box<dyn Family>> {
         "analyze" => Some(Box::new(analyze::Analyze)),
         "quote" => Some(Box::new(quote::Quote)),
         "parse" => Some(Box::new(parse::Parse)),
+        "expect" => Some(Box::new(expect::Expect)),
         "search" => Some(Box::new(search::Search)),
         _ => None,
     }
